@@ -351,6 +351,10 @@ TEXTUAL = [
     ("C09", "tr-svd-first-rank-unguarded", "tensorly/decomposition/_tr_svd.py", "    if rank[0] * rank[1] > min(n_row, n_column):", "    if False:"),
     ("C09", "hooi-core-from-untransposed-factors", "tensorly/decomposition/_tucker.py", "        core = multi_mode_dot(tensor, factors, modes=modes, transpose=True)\n\n        # The factors are orthonormal", "        core = multi_mode_dot(tensor * tl.norm(tensor, 2), factors, modes=modes, transpose=True)\n\n        # The factors are orthonormal"),
     ("C08", "tr-svd-rank-vector-rotated-as-a-whole", "tensorly/decomposition/_tr_svd.py", "        rank = rank[mode:-1] + rank[:mode] + [rank[mode]]\n", "        rank = rank[mode:] + rank[:mode]\n"),
+    ("C05", "nndsvda-fill-with-signed-mean", "tensorly/tenalg/svd.py", "        avg = tl.mean(tl.abs(tensor))", "        avg = tl.mean(tensor)"),
+    ("C05", "nndsvd-leading-pair-copied-as-is", "tensorly/tenalg/svd.py", "    W = tl.index_update(W, tl.index[:, 0], tl.sqrt(S[0]) * tl.abs(U[:, 0]))", "    W = tl.index_update(W, tl.index[:, 0], tl.sqrt(S[0]) * U[:, 0])"),
+    ("C05", "nndsvd-negative-part-not-flipped", "tensorly/tenalg/svd.py", "        x_n, y_n = tl.abs(tl.clip(x, a_max=0.0)), tl.abs(tl.clip(y, a_max=0.0))", "        x_n, y_n = tl.clip(x, a_max=0.0), tl.abs(tl.clip(y, a_max=0.0))"),
+    ("C05", "interface-flips-after-non-negative", "tensorly/tenalg/svd.py", "    if flip_sign:\n        U, V = svd_flip(U, V, u_based_decision=u_based_flip_sign)\n\n    if non_negative is not False and non_negative is not None:\n        U, V = make_svd_non_negative(matrix, U, S, V, non_negative)\n", "    if non_negative is not False and non_negative is not None:\n        U, V = make_svd_non_negative(matrix, U, S, V, non_negative)\n\n    if flip_sign:\n        U, V = svd_flip(U, V, u_based_decision=u_based_flip_sign)\n"),
     ("C03", "cp-ctor-skips-validation", "tensorly/cp_tensor.py", "        shape, rank = _validate_cp_tensor(cp_tensor)\n        weights, factors = cp_tensor\n", "        weights, factors = cp_tensor\n        shape, rank = tuple(f.shape[0] for f in factors), factors[0].shape[1]\n"),
     ("C03", "tt-vec-of-other-family", "tensorly/tt_tensor.py", "    return tl.tensor_to_vec(tt_to_tensor(factors))", "    return tl.tensor_to_vec(tt_to_tensor(factors[::-1]))"),
     ("C03", "tucker-unfolded-wrong-mode", "tensorly/tucker_tensor.py", "        mode,\n    )", "        mode + 1,\n    )"),
@@ -462,6 +466,7 @@ TEXTUAL_TWINS = [
     ("C09", "tt-svd-carry-via-dot-diag", "tensorly/decomposition/_tt.py", "        unfolding = tl.reshape(S, (-1, 1)) * V\n\n    # Getting the last factor", "        unfolding = V * tl.reshape(S, (-1, 1))\n\n    # Getting the last factor"),
     ("C09", "tt-svd-min-argument-order", "tensorly/decomposition/_tt.py", "        current_rank = min(n_row, n_column, rank[k + 1])", "        current_rank = min(rank[k + 1], n_column, n_row)"),
     ("C08", "tr-svd-rank-rotation-via-open-ring", "tensorly/decomposition/_tr_svd.py", "        rank = rank[mode:-1] + rank[:mode] + [rank[mode]]\n", "        ring = rank[:-1]\n        ring = ring[mode:] + ring[:mode]\n        rank = ring + [ring[0]]\n"),
+    ("C05", "nndsvd-positive-part-via-maximum", "tensorly/tenalg/svd.py", "        x_p, y_p = tl.clip(x, a_min=0.0), tl.clip(y, a_min=0.0)", "        x_p, y_p = tl.abs(tl.clip(x, a_min=0.0)), tl.clip(y, a_min=0.0)"),
     ("C01", "partial-fold-del-by-position", "tensorly/base.py", "    mode_dim = transposed_shape.pop(skip_begin + mode)", "    mode_dim = transposed_shape.pop(skip_begin + mode)\n    _n_axes = len(transposed_shape)"),
 ]
 
